@@ -260,7 +260,8 @@ C16Multisets(t) == IF Len(t) = 1 THEN {<<t[1]>>, <<t[1], t[1]>>, <<t[1], t[1], t
                    ELSE {<<t[1], t[2]>>, <<t[1], t[1], t[2]>>, <<t[1], t[2], t[2]>>} \cup (IF Size = 1 THEN {} ELSE {<<t[1], t[1], t[2], t[2]>>})
 \* same name, different subtypes: distinct keys that share the name slot of the option maps
 C16Sub == { [Scn("C16", F(<<L("b", "T4", "s")>>, <<>>), ins, <<>>) EXCEPT !.ndef = nd] :
-              ins \in Arrangements(<<L("b", "T4", "s"), L("b", "T5", "t"), L("b", "T1", "u")>>) \cup Arrangements(<<L("b", "T4", "s"), L("b", "T4", "t")>>),
+              ins \in Arrangements(<<L("b", "T4", "s"), L("b", "T5", "t"), L("b", "T1", "u")>>) \cup Arrangements(<<L("b", "T4", "s"), L("b", "T4", "t")>>)
+                     \cup Arrangements(<<L("b", "T4", "s"), L("b", "T4", "S")>>),       \* (subtypes are case sensitive: two keys)
               nd \in 0..3 }
 \* a typed nil pointer as the last value for a key (see Contract!C16)
 C16Nil == UNION { { [Scn("C16", F(<<p>>, <<>>), ins, <<>>) EXCEPT !.ndef = nd, !.bad = "typednil"] :
